@@ -120,7 +120,9 @@ PROPS = {
         title='Registration bookkeeping reflects exactly the net effect of the history',
         contracts=['C09_registry'], falsifier='C09', modes=['py'], level='other',
         only={'C09_registry': ['adapter.py:BaseAdapterRegistry.register', 'adapter.py:BaseAdapterRegistry.unregister', 'adapter.py:BaseAdapterRegistry.subscribe', 'adapter.py:BaseAdapterRegistry.unsubscribe', 'adapter.py:BaseAdapterRegistry._addValueToLeaf', 'adapter.py:BaseAdapterRegistry._removeValueFromLeaf', 'adapter.py:_convert_None_to_Interface',
-                               'adapter.py:BaseAdapterRegistry._setBases', 'adapter.py:BaseAdapterRegistry.__init__']},
+                               'adapter.py:BaseAdapterRegistry._setBases', 'adapter.py:BaseAdapterRegistry.__init__',
+                               'adapter.py:BaseAdapterRegistry._find_leaf', 'adapter.py:BaseAdapterRegistry.registered',
+                               'adapter.py:BaseAdapterRegistry.subscribed']},
         level_text="Verified from the real bodies for all registry contents: (re-)initialisation installs fresh empty containers and "
                    "continues the generation counter (rebuild() runs it on a live registry); register rejects non-string names with ValueError before "
                    "touching anything, treats None as unregister, and notifies (generation bump + cache invalidation) unless that very "
